@@ -695,3 +695,126 @@ def tree_ops(t):
     if t[0] in ("leaf", "const"):
         return []
     return [t[0]] + tree_ops(t[1]) + tree_ops(t[2])
+
+
+# ---------------------------------------------------------------------------------------------
+# decision tables: concrete interpretation of a small pure function over the bool fields of `self`
+
+
+def decision_table(body, fields, limit=400):
+    """Evaluate `body` (a method of a struct whose result depends only on the bool fields `fields` of `*self`) for
+    every assignment of those fields.  -> {tuple(bools in the order of `fields`): variant name | int | bool} or None
+    if some path leaves the interpretable fragment (calls, loops, unknown places).  Understands moves, `!`, tuples,
+    enum/struct literals, discriminant reads, ==/!=/&/| on bools, SwitchInt."""
+    import itertools
+
+    UNK = object()
+
+    def run(assign):
+        env = {}
+
+        def val_place(pl):
+            l = pl["l"]
+            v = ("self",) if l == 1 else env.get(l, UNK)
+            for p in pl["p"]:
+                if p == "*":
+                    continue
+                if isinstance(p, dict) and "n" in p and v == ("self",):
+                    if p["n"] in assign:
+                        v = assign[p["n"]]
+                    else:
+                        return UNK
+                elif isinstance(p, dict) and "f" in p and isinstance(v, tuple) and v and v[0] == "tuple":
+                    v = v[1][p["f"]] if p["f"] < len(v[1]) else UNK
+                elif isinstance(p, dict) and "dc" in p:
+                    continue
+                elif isinstance(p, dict) and "f" in p and isinstance(v, tuple) and v and v[0] == "variant":
+                    v = v[3][p["f"]] if p["f"] < len(v[3]) else UNK
+                else:
+                    return UNK
+                if v is UNK:
+                    return UNK
+            return v
+
+        def val(op):
+            c = op.get("const")
+            if c is not None:
+                if "variant" in c:
+                    return ("variant", c.get("ty"), c["variant"], [], c.get("v"))
+                if isinstance(c.get("v"), (int, bool)):
+                    return c["v"]
+                return UNK
+            pl = op_place(op)
+            return val_place(pl) if pl is not None else UNK
+
+        bb = 0
+        for _ in range(limit):
+            blk = body.blocks[bb]
+            for s in blk["stmts"]:
+                if s["k"] != "assign":
+                    continue
+                rv = s["rv"]
+                k = rv["k"]
+                if k in ("use", "cast"):
+                    v = val(rv["a"][0])
+                elif k == "un" and rv["op"] == "Not":
+                    x = val(rv["a"][0])
+                    v = UNK if x is UNK else (not x if isinstance(x, bool) else (1 - x if x in (0, 1) else UNK))
+                elif k == "agg":
+                    items = [val(a) for a in rv["a"]]
+                    if rv["ak"] == "tuple":
+                        v = ("tuple", items)
+                    elif rv["ak"] == "adt":
+                        v = ("variant", rv["adt"], rv["variant"], items, rv.get("vi"))
+                    else:
+                        v = UNK
+                elif k == "discr":
+                    x = val_place(rv["place"])
+                    v = x[4] if isinstance(x, tuple) and x and x[0] == "variant" and x[4] is not None else UNK
+                elif k in ("ref", "rawptr"):
+                    v = val_place(rv["place"])
+                elif k == "bin":
+                    x, y = val(rv["a"][0]), val(rv["a"][1])
+                    if x is UNK or y is UNK or isinstance(x, tuple) or isinstance(y, tuple):
+                        v = UNK
+                    else:
+                        o = rv["op"]
+                        v = {"Eq": int(x) == int(y), "Ne": int(x) != int(y), "BitAnd": int(x) & int(y), "BitOr": int(x) | int(y), "BitXor": int(x) ^ int(y)}.get(o, UNK)
+                else:
+                    v = UNK
+                dst = s["place"]
+                if not dst["p"]:
+                    env[dst["l"]] = v
+                elif len(dst["p"]) == 1 and isinstance(dst["p"][0], dict) and "f" in dst["p"][0] and isinstance(env.get(dst["l"]), tuple) and env[dst["l"]][0] == "tuple":
+                    env[dst["l"]][1][dst["p"][0]["f"]] = v
+                else:
+                    return UNK
+            t = blk["term"]
+            if t["k"] == "goto":
+                bb = t["t"]
+            elif t["k"] == "switch":
+                d = val(t["d"])
+                if d is UNK or isinstance(d, tuple):
+                    return UNK
+                d = int(d)
+                nxt = t["otherwise"]
+                for v_, tgt in t["arms"]:
+                    if v_ == d:
+                        nxt = tgt
+                bb = nxt
+            elif t["k"] == "return":
+                r = env.get(0, UNK)
+                if isinstance(r, tuple) and r and r[0] == "variant":
+                    return r[2]
+                return r
+            else:
+                return UNK
+        return UNK
+
+    table = {}
+    for combo in itertools.product([False, True], repeat=len(fields)):
+        r = run(dict(zip(fields, combo)))
+        if r is UNK or isinstance(r, tuple):
+            return None
+        table[combo] = r
+    return table
